@@ -666,6 +666,13 @@ func classifyLoop(c *Ctx, f *ssa.Function, h *ssa.BasicBlock, loop map[*ssa.Basi
 				}
 				visit(cnd, 0)
 				if dep && everyIter(b) {
+					// ReadAndParse hands the deadline over wrapped in the retryable no-packet class: a
+					// CheckProbeRetryable→continue test evaluated BEFORE the deadline test swallows it
+					if name == "packets.ReadAndParse" {
+						if sw := deadlineSwallowed(f, loop, call); sw != "" {
+							return "", sw
+						}
+					}
 					return "governed-read", "every iteration performs a deadline-governed read (" + why + ") whose error leaves the loop"
 				}
 			}
@@ -683,6 +690,29 @@ func isInduction(v ssa.Value, h *ssa.BasicBlock) bool {
 	}
 	if cv, ok := v.(*ssa.Convert); ok {
 		v = cv.X
+	}
+	// per-iteration loop variable captured by a closure (Go 1.22 semantics): *phi(alloc0, allocNext),
+	// where allocNext is initialised from the previous copy and then stepped by a constant
+	if ld, ok := v.(*ssa.UnOp); ok && ld.Op == token.MUL {
+		if pphi, ok := ld.X.(*ssa.Phi); ok && pphi.Block() == h {
+			for _, e := range pphi.Edges {
+				al, ok := e.(*ssa.Alloc)
+				if !ok || al.Block() == nil || !h.Dominates(al.Block()) || al.Block() == h {
+					continue
+				}
+				for _, r := range *al.Referrers() {
+					if st, ok := r.(*ssa.Store); ok && st.Addr == ssa.Value(al) {
+						if bo, ok := st.Val.(*ssa.BinOp); ok && (bo.Op == token.ADD || bo.Op == token.SUB) {
+							if _, isC := bo.Y.(*ssa.Const); isC {
+								if l2, ok := bo.X.(*ssa.UnOp); ok && l2.X == ssa.Value(al) {
+									return true
+								}
+							}
+						}
+					}
+				}
+			}
+		}
 	}
 	phi, ok := v.(*ssa.Phi)
 	if !ok || phi.Block() != h {
@@ -747,4 +777,42 @@ func checkCancellation(c *Ctx) {
 			R.OK("R08.4", e.Name+"#success-after-cancel-test", f.Pos(), e.Name, fmt.Sprintf("%d success paths, all behind ctx.Err() == nil", nsucc))
 		}
 	}
+}
+
+// deadlineSwallowed: in a loop that relies on the read deadline to end, the errors.Is(err, os.ErrDeadlineExceeded)
+// exit must be tested before any CheckProbeRetryable(err) → continue, because ReadAndParse reports an expired
+// deadline as a (retryable) ReceiveProbeNoPktError.
+func deadlineSwallowed(f *ssa.Function, loop map[*ssa.BasicBlock]bool, read *ssa.Call) string {
+	var deadlineIf, retryIf *ssa.BasicBlock
+	for b := range loop {
+		iff, ok := b.Instrs[len(b.Instrs)-1].(*ssa.If)
+		if !ok {
+			continue
+		}
+		cc, _ := condCall(iff)
+		if cc == nil || cc.Common().StaticCallee() == nil {
+			continue
+		}
+		switch cc.Common().StaticCallee().String() {
+		case "errors.Is":
+			if len(cc.Common().Args) == 2 {
+				if ld, ok := cc.Common().Args[1].(*ssa.UnOp); ok {
+					if g, ok := ld.X.(*ssa.Global); ok && g.Name() == "ErrDeadlineExceeded" {
+						deadlineIf = b
+					}
+				}
+			}
+		default:
+			if calleeIs(cc, "common.CheckProbeRetryable") {
+				retryIf = b
+			}
+		}
+	}
+	if deadlineIf == nil {
+		return "" // the loop leaves on any read error (err != nil): nothing can swallow the deadline
+	}
+	if retryIf != nil && retryIf != deadlineIf && retryIf.Dominates(deadlineIf) {
+		return "the loop relies on the read deadline to end, but CheckProbeRetryable(err) → continue is tested before errors.Is(err, os.ErrDeadlineExceeded): ReadAndParse reports an expired deadline as a retryable no-packet error, so the timeout exit is unreachable and the loop spins for ever on a silent source"
+	}
+	return ""
 }
